@@ -750,6 +750,10 @@ def gen_shipped_noisy(rng, genes, per_gene):
             if g.is_functional(m) and not m[1].startswith("ins"):
                 by[m[0]].append(m[1])
         multi = sorted(p for p, o in by.items() if len(o) >= 2)
+        # function-altering variants of the database that NO allele defines (listed in its allele-independent "random" section,
+        # e.g. GSTM1, GSTP1, CFTR): observed, they can only be novel
+        in_alleles = {(m[0], m[1]) for a in g.alleles.values() for m in a.func_muts}
+        orphans = sorted(m for m in g.mutations if g.is_functional(m) and (m[0], m[1]) not in in_alleles)
         for _ in range(per_gene):
             seeds = sorted(rng.choice(names) for _ in range(2))
             cn = [g.alleles[n].cn_config for n in seeds]
@@ -765,6 +769,11 @@ def gen_shipped_noisy(rng, genes, per_gene):
                 here = [m[1] for m in g.mutations if m[0] == p and m[1] not in cells[p]]
                 if here and rng.random() < 0.3:
                     cells[p][rng.choice(here)] = int(d * rng.choice([0.5, 1, 1]) * rng.uniform(0.7, 1.3))
+            if orphans and rng.random() < 0.7:
+                m = rng.choice(orphans)
+                c = cells.setdefault(m[0], collections.OrderedDict())
+                c[m[1]] = int(d * rng.choice([1, 1, 2]))
+                c.setdefault("_", int(d * rng.choice([0, 1])))
             if multi and rng.random() < 0.7:
                 p = rng.choice(multi)
                 c = cells.setdefault(p, collections.OrderedDict())
@@ -948,13 +957,14 @@ def run(chk):
         cases += gen_planted(rng, genes[:-1], 5, sizes=(1, 2, 2, 2, 3))
         cases += gen_planted(rng, genes[-1:], 5, sizes=(1, 2, 2))
         cases += gen_shipped_noisy(rng, [(n, rng.choice(["hg19", "hg38"])) for n in rng.sample(MULTI_SITE_GENES, 4)], 8)
+        cases += gen_shipped_noisy(rng, [(n, rng.choice(["hg19", "hg38"])) for n in ("gstm1", "gstp1")], 4)    # databases with allele-free core variants
     else:
         cases += gen_planted(rng, [("TOY", "hg19"), ("TOY", "hg38")], 60, sizes=(1, 2, 2, 3, 4))
         tiny = [n for n in small if len(load_gene(n, "hg19").alleles) <= 25]
         cases += gen_planted(rng, [(n, b) for n in tiny for b in ("hg19", "hg38")], 0, exhaustive_pairs=True)
         cases += gen_planted(rng, [(n, b) for n in small if n not in tiny for b in ("hg19", "hg38")], 40, sizes=(1, 2, 2, 2, 3))
         cases += gen_planted(rng, [(n, b) for n in big for b in ("hg19", "hg38")], 12, sizes=(1, 2, 2))
-        cases += gen_shipped_noisy(rng, [(n, b) for n in MULTI_SITE_GENES + ["cftr", "nat2", "cyp2c19"] for b in ("hg19", "hg38")], 40)
+        cases += gen_shipped_noisy(rng, [(n, b) for n in MULTI_SITE_GENES + ["cftr", "nat2", "cyp2c19", "gstm1", "gstp1"] for b in ("hg19", "hg38")], 40)
     evaluate(chk, cases)
 
 
